@@ -823,8 +823,9 @@ func runBase(bin, id, tier string, base uint64, tc tierCfg, nw int, workDir stri
 					"ZSIM_TMP="+scratchDir(workDir),
 				)
 				progPath := outPath + ".progress"
+				cmd.Env = append(cmd.Env, "ZSIM_PROGRESS="+progPath)
 				if race {
-					cmd.Env = append(cmd.Env, "ZSIM_PROGRESS="+progPath, "GORACE=log_path="+raceLog+" halt_on_error=1 exitcode=66")
+					cmd.Env = append(cmd.Env, "GORACE=log_path="+raceLog+" halt_on_error=1 exitcode=66")
 				}
 				var stderr bytes.Buffer
 				cmd.Stdout, cmd.Stderr = &stderr, &stderr
@@ -843,7 +844,11 @@ func runBase(bin, id, tier string, base uint64, tc tierCfg, nw int, workDir stri
 					cmd.Process.Kill()
 					<-done
 					mu.Lock()
-					infra = fmt.Sprintf("watchdog: worker %d made no progress within its budget + 90s and was killed (a hang in the simulated code or the harness; not a verdict)", k)
+					where := ""
+					if pb, _ := os.ReadFile(progPath); len(pb) >= 16 {
+						where = fmt.Sprintf("; it was in run index %d of base seed %d (run seed %d)", int64(binary.LittleEndian.Uint64(pb)), base, binary.LittleEndian.Uint64(pb[8:]))
+					}
+					infra = fmt.Sprintf("watchdog: worker %d made no progress within its budget + 90s and was killed (a hang in the simulated code or the harness; not a verdict)%s", k, where)
 					mu.Unlock()
 					return
 				}
@@ -933,7 +938,7 @@ func selftestDeterminism(ids []string) int {
 		bin := build(workDir, pc.Race)
 		type job struct {
 			procs, rep int
-			sum    string
+			sum        string
 		}
 		var jobs []*job
 		for _, p := range []int{1, 4, 16} {
